@@ -16,6 +16,7 @@ from fractions import Fraction
 
 from .. import astutil as A
 from ..alg import Interp, Obj, Poly, PyFunc, Undecided, fn, to_poly
+from ..alg import tensorlib_obj as _tensorlib_obj
 
 EXPLANATION = (
     "EmpiricalDistribution.pvalue is decided by evaluating its indicator on the three orderings samples <,=,> value "
@@ -285,7 +286,7 @@ def _empirical_semantics(ctx, rid, repo):
 
     def mk():
         ext = listnp.externals(interp_truth=lambda v: to_poly(v).evalf(region) != 0)
-        ext["get_backend"] = lambda a, k: (Obj("tensorlib"), None)
+        ext["get_backend"] = (lambda tl_: (lambda a, k: (tl_, None)))(_tensorlib_obj())
         w = World(ext, region=region, module_env={})
         w.add_class(edc).add_class(tcc)
         return w
